@@ -88,6 +88,13 @@ theorem forward_keeps_no_state_gen :
     dwtfwd1_self_writes = [] ∧ dwtinv1_self_writes = [] ∧ scat1_self_writes = [] ∧ scatj2_self_writes = [] := by
   decide
 
+/-- **no function of the library writes into one of its parameters** (subscript stores, augmented assignments, trailing-underscore
+methods on a parameter): the only two hits are the integer `o_dim -= 1` of the axis helpers.  What a caller hands in is read, never
+written (C15, C10: the pyramid lists and tensors of the caller) -/
+theorem writes_into_parameters_gen :
+    writes_into_parameters = ["get_dimensions5: o_dim -= 1", "get_dimensions6: o_dim -= 1"] := by
+  decide
+
 /-- the model's stationary transform uses the dilation read from the source: level `j` (from 0) dilates by `base ^ j` -/
 theorem swt_dilation_gen [Add α] [Mul α] [OfNat α 0] (mode : Mode) (wc0 wc1 wr0 wr1 : List α) (J j : Nat) (ll : List (Img α)) :
     SWTForward mode wc0 wc1 wr0 wr1 (J+1) j ll = (do
